@@ -6,6 +6,7 @@ import (
 	"fmt"
 	"io/fs"
 
+	"github.com/wader/fq/internal/mapstruct"
 	"github.com/wader/fq/pkg/bitio"
 	"github.com/wader/fq/pkg/scalar"
 	"github.com/wader/gojq"
@@ -72,4 +73,15 @@ func VerifC13BitsFormat(v any, nbytes int) (string, error) {
 // the tree dump) on a string with the given string_truncate.
 func VerifC13PreviewString(s string, stringTruncate int) string {
 	return previewValue(s, scalar.DisplayFormat(0), &Options{StringTruncate: stringTruncate})
+}
+
+// VerifC13ByteColor builds the decorator of {color: true, byte_colors: byteColors} with the real
+// decoratorFromOptions (decorator.go) and returns the ANSI set string it gives byte b.
+func VerifC13ByteColor(byteColors any, b int) (string, error) {
+	var opts Options
+	if err := mapstruct.ToStruct(map[string]any{"color": true, "byte_colors": byteColors}, &opts); err != nil {
+		return "", err
+	}
+	d := decoratorFromOptions(opts)
+	return d.ByteColor(byte(b)).SetString, nil
 }
